@@ -8,6 +8,13 @@ def run(tier, seed):
     run = Run("C09", tier, seed)
     build_harness()
     th = tier == "thorough"
+    # TarjanScc as coded (Pearce's variant): every digraph of the bound, every successor order
+    d = os.path.join(SPEC, "algo")
+    base = open(os.path.join(d, "MCTarjanPearce.cfg")).read()
+    run.add_mc("TarjanPearce N=3 with loops (termination)", tlc("algo/TarjanPearce", "MCTarjanPearce.cfg", workers=6, timeout=900, tag="c09tp3"))
+    open(os.path.join(d, "out_MCTarjanPearce.cfg"), "w").write(base.replace("N = 3", "N = 4").replace("Loops = TRUE", "Loops = %s" % ("TRUE" if th else "FALSE")).replace("PROPERTY Terminates\n", "").replace("FairSpec", "Spec"))
+    run.add_mc("TarjanPearce N=4 %s" % ("with loops" if th else "without loops"), tlc("algo/TarjanPearce", "out_MCTarjanPearce.cfg", workers=10, timeout=2400, tag="c09tp4"))
+    os.remove(os.path.join(d, "out_MCTarjanPearce.cfg"))
     recs, matrix = sweep(run, "C09", seed, 3, 400 if th else 60, 7 if th else 6)
     run.extra["applicability_matrix"] = matrix
     run.sample({k: recs[len(recs) // 2][k] for k in ("enc", "hist", "n", "dir", "E", "kos", "topo") if k in recs[len(recs) // 2]})
